@@ -224,7 +224,11 @@ impl<S: BuildHasher + Clone + 'static> ExpirationMap<S> {
     }
 
     pub fn clear(&self) {
+        #[cfg(transparencies_stretto_verif)]
+        crate::verif::yield_point("em.clear.before");
         self.buckets.write().clear();
+        #[cfg(transparencies_stretto_verif)]
+        crate::verif::yield_point("em.clear.after");
     }
 
     pub fn hasher(&self) -> S {
